@@ -113,7 +113,9 @@ theorem close_flow (w w' : World) (env : Env) (s : Nat) (f : Funds) (v l : Nat)
               Vamm.swapInput x env ENGINE (sideToDirection (positionToSide (readPosition w.engine v s).size)) N 0 true
                   = .ok (x', ⟨true, N, bo⟩)
               ∧ partialClosePositionReply w2.q e1 env N bo = .ok (e3, subs3)
-              ∧ AllCE subs3 ∧ w'.engine = e3 ∧ w'.vamm? v = some x')) := by
+              ∧ AllCE subs3 ∧ w'.engine = e3 ∧ w'.vamm? v = some x'
+              ∧ msgs = [swapInputMsg v (positionToSide (readPosition w.engine v s).size) N 0 true
+                          REPLY_PARTIAL_CLOSE])) := by
   obtain ⟨w1, e1, subs, hst, hlog, hex, hrun⟩ := engine_start_log w w' env s f _ h
   have hex' : closePosition w1.q w.engine env s v l = .ok (e1, subs) := hex
   obtain ⟨hpos, hcfg, hnz, tmp, htmp, tv, tt, _⟩ := MirrorP.closePosition_inv _ _ _ _ _ _ _ hex'
@@ -155,6 +157,8 @@ theorem close_flow (w w' : World) (env : Env) (s : Nat) (f : Funds) (v l : Nat)
       · rw [hm] at hm'; injection hm' with hm'; injection hm' with hm' _; cases hm'
       · exact h1
     refine ⟨hc, hsd, ?_⟩
+    have hmsg : subs = [swapInputMsg v (positionToSide (readPosition w.engine v s).size) N 0 true
+        REPLY_PARTIAL_CLOSE] := by rw [hm, pv]
     rw [hm, pv] at hrun
     obtain ⟨fuel', w2, ev, e3, subs3, hx, hrep, hs2⟩ := execSubs_single _ _ _ _ rfl hrun
     obtain ⟨x0, x', o, hx0, hsw, hw2, rfl⟩ := execMsg_swapInput_inv _ _ _ _ _ _ _ _ _ _ hx
@@ -171,7 +175,7 @@ theorem close_flow (w w' : World) (env : Env) (s : Nat) (f : Funds) (v l : Nat)
     have hrep' : partialClosePositionReply w2.q e1 env N bo = .ok (e3, subs3) := hrep
     obtain ⟨_, hce⟩ := MirrorP.partialClosePositionReply_eff _ _ _ _ _ tmp htmp _ hrep'
     obtain ⟨c1, c2, _, _, _⟩ := coll_run _ _ _ _ hs2 hce
-    refine ⟨N, x', bo, w2, e3, subs3, hsw, hrep', hce, c1, ?_⟩
+    refine ⟨N, x', bo, w2, e3, subs3, hsw, hrep', hce, c1, ?_, hmsg⟩
     rw [c2 v]
     exact hvm2
   · left
@@ -209,8 +213,8 @@ theorem close_flow (w w' : World) (env : Env) (s : Nat) (f : Funds) (v l : Nat)
 
 /-! ### OpenPosition -/
 
-/-- the message tree of a successful OpenPosition: increase / reduce (one `swap_input` carrying the caller's
-    limit, band enforced), or reversal (`swap_output` of the whole position without limit, then either the
+/-- the message tree of a successful OpenPosition: increase (stored size zero, or same direction) / reduce
+    (one `swap_input` carrying the caller's limit, band enforced), or reversal — size non-zero, opposite direction — (`swap_output` of the whole position without limit, then either the
     position is closed or the remainder is opened by a second `swap_input` without limit) -/
 theorem open_flow (w w' : World) (env : Env) (s : Nat) (f : Funds) (v : Nat) (side : Side) (m l b : Nat)
     (h : applyTx w env s f (.engine (.openPosition v side m l b)) = .ok w') :
@@ -219,14 +223,17 @@ theorem open_flow (w w' : World) (env : Env) (s : Nat) (f : Funds) (v : Nat) (si
       ∧ openPosition w1.q w.engine env s f v side m l b = .ok (e1, msgs)
       ∧ e1.tmpSwap = some sw ∧ sw.vamm = v ∧ sw.trader = s ∧ sw.side = side
       ∧ e1.positions = w.engine.positions ∧ e1.cfg = w.engine.cfg
-      ∧ ((∃ id, ((id = REPLY_INCREASE ∧ (getPosition env w.engine v s side).direction = sideToDirection side)
-                 ∨ (id = REPLY_DECREASE ∧ (getPosition env w.engine v s side).direction ≠ sideToDirection side))
+      ∧ ((∃ id, ((id = REPLY_INCREASE ∧ ((getPosition env w.engine v s side).size.isZero = true
+                                          ∨ (getPosition env w.engine v s side).direction = sideToDirection side))
+                 ∨ (id = REPLY_DECREASE ∧ ¬ (getPosition env w.engine v s side).size.isZero = true
+                      ∧ (getPosition env w.engine v s side).direction ≠ sideToDirection side))
             ∧ ∃ (x' : Vamm.V) (bo : Nat) (w2 : World) (e3 : E) (subs3 : List SubMsg),
               Vamm.swapInput x env ENGINE (sideToDirection side) (m * l / w.engine.cfg.decimals) b false
                   = .ok (x', ⟨true, m * l / w.engine.cfg.decimals, bo⟩)
               ∧ updatePositionReply w2.q e1 env (m * l / w.engine.cfg.decimals) bo id = .ok (e3, subs3)
               ∧ AllCE subs3 ∧ w'.engine = e3 ∧ w'.vamm? v = some x')
-        ∨ ((getPosition env w.engine v s side).direction ≠ sideToDirection side
+        ∨ ((¬ (getPosition env w.engine v s side).size.isZero = true
+              ∧ (getPosition env w.engine v s side).direction ≠ sideToDirection side)
             ∧ ∃ (x1 : Vamm.V) (qo : Nat) (w2 : World) (e3 : E) (subs3 : List SubMsg),
               Vamm.swapOutput x env ENGINE (getPosition env w.engine v s side).direction
                   (getPosition env w.engine v s side).size.value 0
@@ -275,7 +282,7 @@ theorem open_flow (w w' : World) (env : Env) (s : Nat) (f : Funds) (v : Nat) (si
     obtain ⟨_, hce⟩ := MirrorP.updatePositionReply_eff _ _ _ _ _ _ tmp htmp _ hrep'
     obtain ⟨c1, c2, _, _, _⟩ := coll_run _ _ _ _ hs2 hce
     exact ⟨x0, x', bo, w2, e3, subs3, hx0', hsw, hrep', hce, c1, by rw [c2 v]; exact hvm2⟩
-  rcases hcase with ⟨N, hm, hdir⟩ | ⟨N, hm, hdir, _⟩ | ⟨hm, hdir⟩
+  rcases hcase with ⟨N, hm, hdir⟩ | ⟨N, hm, hnz, hdir, _⟩ | ⟨hm, hnz, hdir⟩
   · have hm' : subs = [swapInputMsg v side (m * l / w.engine.cfg.decimals) b false REPLY_INCREASE] := by
       rcases hmsgs with h1 | h1 | h1
       · exact h1
@@ -291,7 +298,7 @@ theorem open_flow (w w' : World) (env : Env) (s : Nat) (f : Funds) (v : Nat) (si
       · rw [hm] at h1; injection h1 with h1; injection h1 with h1; cases h1
     obtain ⟨x, x', bo, w2, e3, subs3, hxv, r⟩ := hsingle _ (Or.inr rfl) hm'
     exact ⟨w1, e1, x, tmp, subs, hst, hlog, hxv, hex', htmp, tv, tt, ts, hpos, hcfg,
-      Or.inl ⟨_, Or.inr ⟨rfl, hdir⟩, x', bo, w2, e3, subs3, r⟩⟩
+      Or.inl ⟨_, Or.inr ⟨rfl, hnz, hdir⟩, x', bo, w2, e3, subs3, r⟩⟩
   · rw [hm] at hrun
     obtain ⟨fuel', w2, ev, e3, subs3, hx, hrep, hs2⟩ := execSubs_single _ _ _ _ rfl hrun
     obtain ⟨x0, x1, o, hx0, hsw, hw2, rfl⟩ := execMsg_swapOutput_inv _ _ _ _ _ _ _ _ _ hx
@@ -309,7 +316,7 @@ theorem open_flow (w w' : World) (env : Env) (s : Nat) (f : Funds) (v : Nat) (si
       EngineMoney.reversePositionReply_fees _ _ _ _ _ _ tmp htmp hrep'
     have hfce : AllCE fm := MirrorP.transferFees_allCE' _ _ _ _ _ _ hfm
     refine ⟨w1, e1, x0, tmp, subs, hst, hlog, hx0', hex', htmp, tv, tt, ts, hpos, hcfg,
-      Or.inr ⟨hdir, x1, qo, w2, e3, subs3, hsw, hrep', ?_⟩⟩
+      Or.inr ⟨⟨hnz, hdir⟩, x1, qo, w2, e3, subs3, hsw, hrep', ?_⟩⟩
     rcases hlast with ⟨hnone, _, amt, rfl⟩ | ⟨sw', hs', _, htr, hvm, hsd', _, rfl⟩
     · left
       have hce : AllCE subs3 := by
